@@ -474,6 +474,31 @@ pub fn run_cmd(args: &Args) {
             cx
         }));
     }
+    // ---- A2. distance-cache sensitive members (the encoder's catable promise): a catable member
+    // whose first meta-block(s) are stored (incompressible prefix) and whose later data repeats
+    // at a short period (the initial distance cache holds 4, 11, 15, 16), behind a member that
+    // left real distances in the decoder's cache.
+    if which == "all" || which == "valid" {
+        let n = if thorough { 160 } else { 40 };
+        outs.extend(par_tasks(n, move |i| {
+            let mut cx = Ctx::new();
+            let mut rng = Rng::new(seed ^ 0xD157 ^ ((i as u64) << 20));
+            let (q, lgwin) = *rng.pick(&[(5, 16), (6, 18), (9, 16), (4, 17), (2, 16), (7, 16), (3, 18), (8, 17)]);
+            let period = *rng.pick(&[4usize, 11, 15, 16, 1, 2, 3, 5, 8, 12, 7, 10]);
+            let mut first = Vec::new();
+            for k in 0..(100 + rng.below(300)) { first.extend_from_slice(format!("line {} of the first member, with some repeated words\n", k * 7919).as_bytes()); }
+            let blocks = rng.range(1, 3) as usize;
+            let mut second: Vec<u8> = (0..(blocks << 16) + rng.below(3) as usize * 1000).map(|_| rng.next() as u8).collect();
+            let motif: Vec<u8> = (0..period).map(|k| b'a' + ((k as u8).wrapping_mul(7) % 26)).collect();
+            for _ in 0..(20000 / period + 1) { second.extend_from_slice(&motif); }
+            let mk = |content: Vec<u8>, catable: bool| { let bytes = encode(&content, q, lgwin, true, catable, false, false); Member { bytes, content: Some(content), desc: format!("enc q{} w{} {} (noise+period{})", q, lgwin, if catable { "catable" } else { "appendable" }, period), lgwin, catable, appendable: true, large: false } };
+            let mut ms = vec![mk(first, false), mk(second.clone(), true)];
+            if rng.chance(1, 2) { ms.push(mk(second, true)); }
+            cx.rep.count("scenario.dist_cache_sensitive");
+            scenario(&mut cx, 0, &ms, &[], true);
+            cx
+        }));
+    }
     // ---- B. arbitrary bytes (C16 + C12): every 2-byte prefix x continuations, as 2nd member and as 1st member
     if which == "all" || which == "bytes" {
         let step: u32 = if thorough { 1 } else { 5 };
